@@ -463,6 +463,8 @@ func c18(c *Ctx) (*report.Result, error) {
 	res.Extra["missing"] = missing
 	res.Extra["extra"] = extra
 	res.Assumptions = []string{"the proto/1_22 Go structs are the v1.22 schema", "generated getters Get<Field> return field <Field>"}
+	res.RuleDoc["O18.6"] = "translation, access control and repair keep no memory between messages: no shipped function of the interceptor, proto/compat, auth and collect packages stores into package-level state, receiver fields or sync.Maps after construction - a cache keyed by message type or content makes the treatment of one message depend on the ones before it"
+	checkStateless(c, res, "O18.6", []string{"interceptor", "proto/compat", "auth", "collect"}, map[string]string{})
 	return res, nil
 }
 
@@ -734,13 +736,40 @@ func checkConversionLookups(c *Ctx, res *report.Result, f *ssa.Function, rule st
 	n := 0
 	for _, tbl := range []string{"adminConvertTo122", "frontendConvertTo122"} {
 		calls := flow.FindCalls(f, func(cc *ssa.CallCommon) bool { return flow.IsCallTo(cc, compatPkg, "", tbl) })
+		if len(calls) == 0 {
+			// the lookups may live in a module helper called with the message: follow one level
+			for _, hc := range flow.Calls(f) {
+				H := flow.StaticCallee(hc.Common())
+				if H == nil || H.Package() != f.Package() || len(H.Blocks) == 0 {
+					continue
+				}
+				inner := flow.FindCalls(H, func(cc *ssa.CallCommon) bool { return flow.IsCallTo(cc, compatPkg, "", tbl) })
+				if len(inner) != 1 {
+					continue
+				}
+				okThrough := false
+				ia := flow.Strip(flow.ResolveLoad(inner[0].Common().Args[0]))
+				for k, hp := range H.Params {
+					if ia == ssa.Value(hp) && k < len(hc.Common().Args) && flow.Strip(flow.ResolveLoad(hc.Common().Args[k])) == msg {
+						okThrough = true
+					}
+				}
+				n++
+				res.Check(okThrough, rule, "convertAndRepairInvalidUTF8: "+tbl+" is consulted with the message being decoded", instrPos(c.Prog, inner[0]), "through helper "+H.Name(), "the table is consulted (in helper "+H.Name()+") with something other than the message being decoded")
+				calls = nil
+				goto next
+			}
+		}
 		if len(calls) != 1 {
 			res.Undec(rule, "convertAndRepairInvalidUTF8: lookup in "+tbl, fnPos(c.Prog, f), fmt.Sprintf("%d calls", len(calls)))
 			continue
 		}
-		n++
-		arg := flow.Strip(flow.ResolveLoad(calls[0].Common().Args[0]))
-		res.Check(arg == msg, rule, "convertAndRepairInvalidUTF8: "+tbl+" is consulted with the message being decoded", instrPos(c.Prog, calls[0]), "argument = the function's message parameter", "the table is consulted with "+flow.Describe(arg)+" instead of the message being decoded: no type of this table is ever found, so invalid UTF-8 in any message of those types is never repaired")
+		{
+			n++
+			arg := flow.Strip(flow.ResolveLoad(calls[0].Common().Args[0]))
+			res.Check(arg == msg, rule, "convertAndRepairInvalidUTF8: "+tbl+" is consulted with the message being decoded", instrPos(c.Prog, calls[0]), "argument = the function's message parameter", "the table is consulted with "+flow.Describe(arg)+" instead of the message being decoded: no type of this table is ever found, so invalid UTF-8 in any message of those types is never repaired")
+		}
+	next:
 	}
 	_ = n
 }
